@@ -276,36 +276,6 @@ def build (p : Prog) : Except Err (Built × List Ev) :=
     | .error e => .error e
     | .ok cs => .ok (b, cs.trace.reverse)
 
-/-! ### `spox.build(inputs, outputs, drop_unused_inputs=…)` (`_public.build`)
-
-`results(**outputs)`, then `.with_arguments(*inputs)` unless `drop_unused_inputs`; after the build a
-`KeyError` if the model needs an input that was not given; with `drop_unused_inputs` the inputs found
-by the traversal (set order) are re-listed in the relative order of `inputs`. -/
-
-/-- the main graph with the requested argument list `build` gives it -/
-def Prog.withMainArgs (p : Prog) (args : Option (List Nat)) : Prog :=
-  { p with graphs := match p.graphs with
-      | [] => []
-      | g :: gs => { g with args := args } :: gs }
-
-inductive PubErr
-  | build (e : Err)          -- whatever `to_onnx_model` raised
-  | missingInput             -- KeyError: "Model requires additional inputs not provided in 'inputs'."
-deriving Repr, DecidableEq
-
-/-- the inputs of the returned model, in order -/
-def keptInputs (inputs found : List Nat) (drop : Bool) : List Nat :=
-  if drop then inputs.filter (fun a => found.contains a) else found
-
-def publicBuild (p : Prog) (inputs : List Nat) (drop : Bool) :
-    Except PubErr (Built × List Ev × List Nat) :=
-  match build (p.withMainArgs (if drop then none else some inputs)) with
-  | .error e => .error (.build e)
-  | .ok (b, tr) =>
-    let found := lookupL b.argsOf 0
-    if found.any (fun a => !inputs.contains a) then .error .missingInput
-    else .ok (b, tr, keptInputs inputs found drop)
-
 /-! ### what `onnx.checker` verifies structurally on the nested emission -/
 
 /-- `frames`: visible names, innermost graph first -/
@@ -322,6 +292,41 @@ def structOk (p : Prog) : List Ev → List (List V) → Bool
     match frames with
     | [] => false
     | f :: fs => structOk p rest ((v :: f) :: fs)
+
+/-! ### `spox.build(inputs, outputs, drop_unused_inputs=…)` (`_public.build`)
+
+`results(**outputs)`, then `.with_arguments(*inputs)` unless `drop_unused_inputs`; `to_onnx_model()` —
+the build and then the final `onnx.checker` (`structOk`; a `ValidationError` comes BEFORE the test for
+missing inputs); after that a `KeyError` if the model needs an input that was not given; with `drop_unused_inputs` the inputs found
+by the traversal (set order) are re-listed in the relative order of `inputs`. -/
+
+/-- the main graph with the requested argument list `build` gives it -/
+def Prog.withMainArgs (p : Prog) (args : Option (List Nat)) : Prog :=
+  { p with graphs := match p.graphs with
+      | [] => []
+      | g :: gs => { g with args := args } :: gs }
+
+inductive PubErr
+  | build (e : Err)          -- whatever the Builder raised inside `to_onnx_model`
+  | validation               -- `onnx.checker` at the end of `to_onnx_model` (before the missing-input test)
+  | missingInput             -- KeyError: "Model requires additional inputs not provided in 'inputs'."
+deriving Repr, DecidableEq
+
+/-- the inputs of the returned model, in order -/
+def keptInputs (inputs found : List Nat) (drop : Bool) : List Nat :=
+  if drop then inputs.filter (fun a => found.contains a) else found
+
+def publicBuild (p : Prog) (inputs : List Nat) (drop : Bool) :
+    Except PubErr (Built × List Ev × List Nat) :=
+  match build (p.withMainArgs (if drop then none else some inputs)) with
+  | .error e => .error (.build e)
+  | .ok (b, tr) =>
+    match structOk (p.withMainArgs (if drop then none else some inputs)) tr [] with
+    | false => .error .validation
+    | true =>
+      let found := lookupL b.argsOf 0
+      if found.any (fun a => !inputs.contains a) then .error .missingInput
+      else .ok (b, tr, keptInputs inputs found drop)
 
 /-- the vertices emitted as operator applications -/
 def emitted : List Ev → List V
